@@ -147,7 +147,7 @@ class Response:
             payload += struct.pack("B", self.service.request_id())
             payload += struct.pack('B', self.code)
 
-        if self.data is not None and self.service.has_response_data():
+        if self.data is not None:
             payload += self.data
         return payload
 
